@@ -294,6 +294,8 @@ def run_harness(h, ctx, playback=False, only_props=None):
         # witness extraction is capped: CBMC's trace mode is occasionally pathological (a 4 s proof
         # whose trace run does not finish in 30 min); then the outcome is inconclusive, never a VIOLATION
         timeout = min(h.get("timeout_s", 600) * 2, 1500) if playback else h.get("timeout_s", 600)
+        if os.environ.get("VERIF_TIMEOUT_CAP"):
+            timeout = min(timeout, int(os.environ["VERIF_TIMEOUT_CAP"]))
         status = "done"
         with open(logp, "w") as lf:
             p = subprocess.Popen(cmd, cwd=HARNESS, env=ctx["env"], stdout=lf, stderr=subprocess.STDOUT, preexec_fn=limits(mem * 3 if playback else mem, h.get("big_stack", False)))  # kani-driver needs room to parse the CBMC trace
